@@ -150,7 +150,8 @@ VocDef == << SDefine("p", <<W("a")>>), SDefine("q", <<PRef("p"), Aplus>>), SDefi
              SEntry(<<PRef("p")>>), SEntry(<<W("b"), PRef("q")>>), SEntry(<<PRef("r")>>), SEntry(<<PRef("s"), PRef("p")>>),
              SEntry(<<PRef("u"), W("a")>>), E("b"),
              SPrefix(<<PRef("p")>>), SSuffix(<<PRef("s")>>), IncOf("dinc"),
-             SPrefix(<<PRef("q")>>), IncOf("ddef"), IncOf("dpfx"),                              \* a NESTED definition used by a prefix line
+             SPrefix(<<PRef("q")>>), IncOf("ddef"), IncOf("dpfx"),
+             SDefine("_u", <<W("b")>>), SEntry(<<PRef("_u"), W("a")>>),   \* a name that starts with an underscore                              \* a NESTED definition used by a prefix line
              LStart("assemble", ""), LEnd, LConcat >>
 
 Voc0 == CASE Family = "inc" -> VocInc [] Family = "exc" -> VocExc [] Family = "def" -> VocDef
